@@ -138,6 +138,7 @@ class Runner:
         prof = self.profile
         what = c.meta.get("compare", prof.get("compare", ("out", "exit", "diag", "files")))
         exe = self.exe(b)
+        orig_decisive = {a for a, _, _ in diffs if a in prof.get("model_is_oracle", ())}
         def still(cc):
             rr = core.run_real(exe, cc, timeout=prof.get("timeout", 20))
             if oracle_msgs:
@@ -150,7 +151,10 @@ class Runner:
                 return False
             mm = core.run_model_many([cc])[0]
             if rr.inconclusive or mm.inconclusive: return False
-            return bool(compare(rr, mm, what))
+            dd = compare(rr, mm, what)
+            # keep the kind of disagreement: a difference in what the property fixes must not shrink into a mere difference of diagnostics
+            if orig_decisive: return any(a in orig_decisive for a, _, _ in dd)
+            return bool(dd)
         small = c
         if prof.get("shrink", True) and not c.meta.get("noshrink"):
             try: small = shrink.shrink_case(c, still, max_tests=120)
